@@ -79,7 +79,7 @@ KERNELS = [
                                 o[3].b == o[2].b, Implies(o[2].b, o[0].i == a[1]), Implies(Not(o[2].b), o[0].i == a[0])))],
       bounds={0: (-89999, 89999), 1: (-89999, 89999), 2: (0, 2), 3: (0, 365), 4: (1, 5), 5: (0, 6), 6: (-604799, 604799),
               7: (0, 2), 8: (0, 365), 9: (1, 5), 10: (0, 6), 11: (-604799, 604799), 12: (TS_MIN_S, TS_MAX_S), 13: (-999999999, 999999999)},
-      timeout=1800, tier="thorough"),
+      timeout=1800, tier="deep"),
     K("c03::k_posix_us", pre=WIN_OK,
       claims=[("EST5EDT,M3.2.0,M11.1.0 (years 1900..2100): DST exactly from the 2nd Sunday of March 07:00:00Z to the 1st Sunday of November 06:00:00Z", us_claim)],
       bounds=B_W, split=(0, 8), timeout=200),
@@ -88,8 +88,8 @@ KERNELS = [
       bounds=B_W, split=(0, 8), timeout=200),
     K("c03::k_posix_us", pre=YEAR_OK,
       claims=[("EST5EDT,M3.2.0,M11.1.0: DST exactly from the 2nd Sunday of March 07:00:00Z to the 1st Sunday of November 06:00:00Z (exact instants, both sides of 1970)", us_claim)],
-      bounds=B_T, split=(0, 128), timeout=900, tier="thorough"),
+      bounds=B_T, split=(0, 128), timeout=900, tier="deep"),
     K("c03::k_posix_lhi", pre=YEAR_OK,
       claims=[("<+1030>-10:30<+11>-11,M10.1.0,M4.1.0: half-hour DST across the new year", lhi_claim)],
-      bounds=B_T, split=(0, 128), timeout=900, tier="thorough"),
+      bounds=B_T, split=(0, 128), timeout=900, tier="deep"),
 ]
